@@ -73,6 +73,11 @@ pub struct Case {
     /// around them
     #[serde(default)]
     pub no_steer: bool,
+    /// instead of the ops: a chain of this many nested spans (each the explicit child of the
+    /// previous one) with an event in the leaf, whose scope is read from leaf to root and from
+    /// root to leaf (C06: long ancestor chains)
+    #[serde(default)]
+    pub deep: Option<u8>,
 }
 
 // ---- recording layer ---------------------------------------------------------------------
@@ -425,7 +430,103 @@ type Traces = Arc<Mutex<Vec<Option<SpanTrace>>>>;
 
 const F2_SIG: &str = "F2: span exited or closed (with a parent) while the thread's default is not the span's own collector";
 
+struct DeepCs(usize);
+static DEEP_CS: [DeepCs; 2] = [DeepCs(0), DeepCs(1)];
+static DEEP_METAS: [tracing_core::Metadata<'static>; 2] = [
+    tracing_core::Metadata::new("deep", "c06::deep", tracing_core::Level::INFO, None, None, None, tracing_core::field::FieldSet::new(&[], tracing_core::identify_callsite!(&DEEP_CS[0])), tracing_core::metadata::Kind::SPAN),
+    tracing_core::Metadata::new("deep_ev", "c06::deep", tracing_core::Level::INFO, None, None, None, tracing_core::field::FieldSet::new(&[], tracing_core::identify_callsite!(&DEEP_CS[1])), tracing_core::metadata::Kind::EVENT),
+];
+impl tracing_core::callsite::Callsite for DeepCs {
+    fn set_interest(&self, _: tracing_core::Interest) {}
+    fn metadata(&self) -> &tracing_core::Metadata<'_> {
+        &DEEP_METAS[self.0]
+    }
+}
+fn universe_cs() -> &'static [DeepCs; 2] {
+    &DEEP_CS
+}
+
+/// C06, long chains: `depth` nested spans (explicit parents), an event in the leaf; a recording
+/// layer reads the event's scope in both directions and every span's own scope.
+fn run_deep(depth: usize) -> Outcome {
+    use tracing_subscriber::subscribe::CollectExt;
+    #[derive(Default)]
+    struct Seen {
+        leaf_to_root: Vec<u64>,
+        root_to_leaf: Vec<u64>,
+        per_span_ok: bool,
+        problems: Vec<String>,
+    }
+    struct DeepLayer(Arc<Mutex<Seen>>);
+    impl<C: tracing_core::Collect + for<'a> LookupSpan<'a>> tracing_subscriber::subscribe::Subscribe<C> for DeepLayer {
+        fn on_event(&self, ev: &tracing_core::Event<'_>, ctx: tracing_subscriber::subscribe::Context<'_, C>) {
+            let mut s = self.0.lock().unwrap();
+            if let Some(sc) = ctx.event_scope(ev) {
+                s.leaf_to_root = sc.map(|x| x.id().into_u64()).collect();
+            }
+            if let Some(sc) = ctx.event_scope(ev) {
+                s.root_to_leaf = sc.from_root().map(|x| x.id().into_u64()).collect();
+            }
+            // every ancestor's own scope is the suffix of the chain
+            s.per_span_ok = true;
+            let chain = s.leaf_to_root.clone();
+            for (k, id) in chain.iter().enumerate() {
+                if let Some(sp) = ctx.span(&tracing_core::span::Id::from_u64(*id)) {
+                    let own: Vec<u64> = sp.scope().map(|x| x.id().into_u64()).collect();
+                    let own_rev: Vec<u64> = sp.scope().from_root().map(|x| x.id().into_u64()).collect();
+                    let mut want_rev = chain[k..].to_vec();
+                    want_rev.reverse();
+                    if own != chain[k..] || own_rev != want_rev {
+                        s.per_span_ok = false;
+                        s.problems.push(format!("span {id}: scope {own:?} / from_root {own_rev:?}, expected {:?} / {want_rev:?}", &chain[k..]));
+                    }
+                } else {
+                    s.per_span_ok = false;
+                    s.problems.push(format!("span {id} of the event's scope is not in the registry"));
+                }
+            }
+        }
+    }
+    let seen = Arc::new(Mutex::new(Seen::default()));
+    let d = Dispatch::new(Registry::default().with(DeepLayer(seen.clone())));
+    let cs = &universe_cs()[0];
+    let meta = tracing_core::callsite::Callsite::metadata(cs);
+    let vs = meta.fields().value_set(&[]);
+    let mut ids: Vec<tracing_core::span::Id> = Vec::new();
+    for k in 0..depth {
+        let attrs = match ids.last() {
+            Some(p) => tracing_core::span::Attributes::child_of(p.clone(), meta, &vs),
+            None => tracing_core::span::Attributes::new_root(meta, &vs),
+        };
+        let _ = k;
+        ids.push(d.new_span(&attrs));
+    }
+    let ev_meta = tracing_core::callsite::Callsite::metadata(&universe_cs()[1]);
+    let evs = ev_meta.fields().value_set(&[]);
+    d.event(&tracing_core::Event::new_child_of(ids.last().cloned(), ev_meta, &evs));
+    let want_l2r: Vec<u64> = ids.iter().rev().map(|i| i.into_u64()).collect();
+    let want_r2l: Vec<u64> = ids.iter().map(|i| i.into_u64()).collect();
+    let s = seen.lock().unwrap();
+    let out = if s.leaf_to_root != want_l2r {
+        Outcome::fail("event scope is not the chain of ancestors from leaf to root", format!("depth {depth}: {:?}, expected {want_l2r:?}", s.leaf_to_root))
+    } else if s.root_to_leaf != want_r2l {
+        Outcome::fail("event scope from_root is not root to leaf", format!("depth {depth}: {:?}, expected {want_r2l:?}", s.root_to_leaf))
+    } else if !s.per_span_ok {
+        Outcome::fail("scope from_root is not root to leaf", format!("depth {depth}: {:?}", s.problems.first()))
+    } else {
+        Outcome::pass(depth >= 3, vec![if depth > 16 { "deep_chain_over_16".to_string() } else { "deep_chain".to_string() }])
+    };
+    drop(s);
+    for i in ids.into_iter().rev() {
+        d.try_close(i);
+    }
+    out
+}
+
 fn run_case(mode: Mode, case: &Case) -> Outcome {
+    if let Some(n) = case.deep {
+        return run_deep((n as usize).clamp(1, 64));
+    }
     let f2_open = kf::load("C05").iter().any(|f| f.id == "F2" && f.status == "open");
     let steer = f2_open && !case.no_steer;
     let stacks = [build_stack(), build_stack()];
@@ -1158,7 +1259,7 @@ impl Property for RegProp {
         // optional prelude: a chain of nested, entered spans on one thread (depth 0..4), optionally
         // with a trace captured at the bottom, so that deep ancestor chains are common
         let prelude = (t(), 0usize..5, any::<bool>(), any::<bool>());
-        (proptest::collection::vec(sel(), NT), prelude, proptest::collection::vec(op, 1..max))
+        let main_cases = (proptest::collection::vec(sel(), NT), prelude, proptest::collection::vec(op, 1..max))
             .prop_map(|(sels, (pt, depth, owned, trace), ops)| {
                 let mut all: Vec<Op> = sels.into_iter().enumerate().map(|(t, sel)| Op::SwitchDefault { t: t as u8, sel }).collect();
                 for d in 0..depth {
@@ -1169,9 +1270,22 @@ impl Property for RegProp {
                     all.push(Op::TraceCapture { t: pt, tr: 0 });
                 }
                 all.extend(ops);
-                Case { ops: all, no_steer: false }
-            })
-            .boxed()
+                Case { ops: all, no_steer: false, deep: None }
+            });
+        if c06 {
+            // a few long chains (beyond any inline buffer of the scope iterators)
+            let deep = (1u8..48).prop_map(|n| Case { ops: vec![], no_steer: false, deep: Some(n) });
+            prop_oneof![40 => main_cases.boxed(), 1 => deep.boxed()].boxed()
+        } else {
+            main_cases.boxed()
+        }
+    }
+    fn enumerate(&self, _tier: Tier, shard: u32, _of: u32, rec: &mut vp_engine::runner::Rec<'_, Self>) {
+        if self.mode == Mode::C06 && shard == 0 {
+            for n in [1u8, 2, 3, 8, 15, 16, 17, 18, 31, 32, 33, 40, 47] {
+                rec.eval(&Case { ops: vec![], no_steer: false, deep: Some(n) });
+            }
+        }
     }
     fn run(&self, case: &Case) -> Outcome {
         run_case(self.mode, case)
@@ -1179,7 +1293,7 @@ impl Property for RegProp {
     fn rule(&self) -> String {
         match self.mode {
             Mode::C05 => "programs of <=45 (thorough <=70) ops {Create(contextual|root|explicit parent),Clone,Drop,Enter,Entered,DropGuard(any order),Current,Event,TraceCapture/Check/Drop,SwitchDefault(own registry|other registry|none)} over 6 span slots and 3 stepped OS threads against two independent Registry+2 recording layers stacks, one fresh process per program, followed by a deterministic teardown through the same checked path. non-trivial: a handle dropped while the span is entered somewhere, or a parent's handle dropped while a child is open, or guards dropped out of order, or a handle dropped on a thread other than its creator; distinct by op list".into(),
-            Mode::C06 => "same interpreter as C05 with more events and SpanTrace captures; non-trivial: ancestor depth >= 3 and (guards dropped out of order, or one span entered on two threads at once, or a SpanTrace checked after every handle of its chain was dropped); distinct by op list".into(),
+            Mode::C06 => "same interpreter as C05 with more events and SpanTrace captures; non-trivial: ancestor depth >= 3 and (guards dropped out of order, or one span entered on two threads at once, or a SpanTrace checked after every handle of its chain was dropped); plus chains of 1-47 nested spans (explicit parents) with an event in the leaf whose scope, and every ancestor's scope, is read in both directions; distinct by op list".into(),
         }
     }
     fn assumptions(&self) -> Vec<String> {
